@@ -33,6 +33,7 @@
 import Lungo.Proofs.OplogSteps
 import Lungo.Proofs.ReplayLaws
 import Lungo.Proofs.UpdateDesc
+import Lungo.Proofs.RetainLaws
 namespace Lungo.C08
 open Lungo Lungo.Spec
 
@@ -263,6 +264,75 @@ theorem clean_enforces_age_nowrap (L : List (Nat × Nat)) (hs : NonDecreasing L)
   · right; rw [cutoff_nowrap _ _ hw1]; omega
   · right; rw [tsLt_iff, cutoff_nowrap _ _ hw2]; left; simp only; omega
 
+/-- `clean_drops_prefix`: the whole effect of Clean in one statement — the log loses exactly its first
+    `k = cleanCount …` events (`k ≤ n`), every other namespace is what it was, and the transaction is
+    marked dirty iff something was removed (it keeps its flag otherwise). -/
+theorem clean_drops_prefix (t : Txn) (L : List (Nat × Nat)) (h : HasTs t L)
+    (minSize maxSize : Int) (minAgeS maxAgeS : Nat) (z : Bool) (nowT nowI : Nat) :
+    let k := cleanCount L minSize maxSize minAgeS maxAgeS z nowT nowI
+    let t' := t.clean minSize maxSize minAgeS maxAgeS z nowT nowI
+    k ≤ L.length ∧ t'.oplog = t.oplog.drop k ∧
+    (∀ hd, hd ≠ oplogHandle → t'.catalog.get? hd = t.catalog.get? hd) ∧
+    t'.dirty = (t.dirty || decide (0 < k)) := by
+  intro k t'
+  refine ⟨?_, clean_prefix t L h .., fun hd hne => clean_other_namespaces t _ _ _ _ _ _ _ hd hne, ?_⟩
+  · show cleanCount L minSize maxSize minAgeS maxAgeS z nowT nowI ≤ L.length
+    rw [cleanCount_eq]; exact leading_le _ _ _
+  · by_cases hk : 0 < k
+    · have := clean_drop_dirty t L h minSize maxSize minAgeS maxAgeS z nowT nowI hk
+      show t'.dirty = _
+      rw [this]; simp [hk]
+    · have hk0 : k = 0 := by omega
+      have := clean_noop_not_dirty t L h minSize maxSize minAgeS maxAgeS z nowT nowI hk0
+      show t'.dirty = _
+      simp only [t', this, hk0]; simp
+
+/-- `clean_monotone_now`: within one second the number of removed events can only grow with the
+    counter of `now` (the maximum-age cutoff `(maxT, now.I)` moves forward; nothing else depends on
+    `now.I`).  The `retain` stream relies on this: `now.I` is only known to lie between two readings of
+    the clock, and every count between the counts for the two ends is admissible. -/
+theorem clean_monotone_now (L : List (Nat × Nat)) (minSize maxSize : Int) (minAgeS maxAgeS : Nat) (z : Bool)
+    (nowT : Nat) {nowI nowI' : Nat} (h : nowI ≤ nowI') :
+    cleanCount L minSize maxSize minAgeS maxAgeS z nowT nowI ≤ cleanCount L minSize maxSize minAgeS maxAgeS z nowT nowI' := by
+  rw [cleanCount_eq, cleanCount_eq]
+  exact leading_mono _ _ (fun i a hd => droppable_mono_nowI _ _ _ _ _ _ h i a hd) 0 L
+
+/-- `clean_antitone_sizes`: larger limits never remove more — raising `minSize` and/or `maxSize`
+    (same log, same ages, same `now`) removes at most as many events. -/
+theorem clean_antitone_sizes (L : List (Nat × Nat)) {minSize minSize' maxSize maxSize' : Int} (minAgeS maxAgeS : Nat)
+    (z : Bool) (nowT nowI : Nat) (h1 : minSize ≤ minSize') (h2 : maxSize ≤ maxSize') :
+    cleanCount L minSize' maxSize' minAgeS maxAgeS z nowT nowI ≤ cleanCount L minSize maxSize minAgeS maxAgeS z nowT nowI := by
+  rw [cleanCount_eq, cleanCount_eq]
+  exact leading_mono _ _ (fun i a hd => droppable_antitone_sizes _ _ _ _ _ h1 h2 i a hd) 0 L
+
+/-- `clean_idempotent_count`: on the log that remains after a retention pass, a second pass with the
+    same limits at the same `now` removes nothing: the first remaining event is a keeper, and its
+    position relative to the END of the log (which is what both size limits look at) has not changed. -/
+theorem clean_idempotent_count (L : List (Nat × Nat)) (minSize maxSize : Int) (minAgeS maxAgeS : Nat) (z : Bool)
+    (nowT nowI : Nat) :
+    cleanCount (L.drop (cleanCount L minSize maxSize minAgeS maxAgeS z nowT nowI)) minSize maxSize minAgeS maxAgeS z nowT nowI = 0 := by
+  have hle : cleanCount L minSize maxSize minAgeS maxAgeS z nowT nowI ≤ L.length := by
+    rw [cleanCount_eq]; exact leading_le _ _ _
+  rw [cleanCount_eq (L.drop _), List.length_drop]
+  rw [leading_shift _ (droppable L.length minSize maxSize z (cutoffT nowT minAgeS) (cutoffT nowT maxAgeS) nowI)
+    (cleanCount L minSize maxSize minAgeS maxAgeS z nowT nowI)
+    (fun j a => droppable_shift L.length _ hle minSize maxSize z _ _ nowI j a)]
+  have := leading_drop_self (droppable L.length minSize maxSize z (cutoffT nowT minAgeS) (cutoffT nowT maxAgeS) nowI) 0 L
+  rw [← cleanCount_eq] at this
+  simpa using this
+
+/-- `clean_idempotent`: cleaning a transaction twice (same limits, same `now`) is cleaning it once. -/
+theorem clean_idempotent (t : Txn) (L : List (Nat × Nat)) (h : HasTs t L)
+    (minSize maxSize : Int) (minAgeS maxAgeS : Nat) (z : Bool) (nowT nowI : Nat) :
+    (t.clean minSize maxSize minAgeS maxAgeS z nowT nowI).clean minSize maxSize minAgeS maxAgeS z nowT nowI
+      = t.clean minSize maxSize minAgeS maxAgeS z nowT nowI := by
+  have h' : HasTs (t.clean minSize maxSize minAgeS maxAgeS z nowT nowI)
+      (L.drop (cleanCount L minSize maxSize minAgeS maxAgeS z nowT nowI)) := by
+    unfold HasTs at *
+    rw [clean_prefix t L h, List.map_drop, h, List.map_drop]
+  exact clean_noop_not_dirty _ _ h' minSize maxSize minAgeS maxAgeS z nowT nowI
+    (clean_idempotent_count L minSize maxSize minAgeS maxAgeS z nowT nowI)
+
 /-- strictly increasing timestamps -/
 def StrictlyIncreasing (L : List (Nat × Nat)) : Prop := L.Pairwise fun a b => tsLt a b = true
 
@@ -364,6 +434,13 @@ private def L6 : List (Nat × Nat) := [(100, 1), (100, 2), (200, 1), (300, 1), (
 #guard ((Sys.init.commitWith { minSize := 1, maxSize := 2, minAgeS := 0, maxAgeS := 900, minAgeZero := true } 1000 7
   { t6 with dirty := true } { nextId := 9, oids := [] }).catalog.oplog.map (·.id)) == [4, 5]
 #guard ((Sys.init.commitWith { minSize := 6 } 1000 7 { t6 with dirty := true } { nextId := 9, oids := [] }).catalog.oplog.length) == 6
+-- monotone in now.I: two events on the maxAge second (cutoff (400, I)) — counter 1 keeps both, 2 drops one, 3 both
+#guard (cleanCount L6 0 100 0 600 true 1000 1, cleanCount L6 0 100 0 600 true 1000 2, cleanCount L6 0 100 0 600 true 1000 3) == (4, 5, 6)
+-- antitone in the sizes
+#guard (cleanCount L6 0 1 0 900 true 1000 7, cleanCount L6 2 1 0 900 true 1000 7, cleanCount L6 2 3 0 900 true 1000 7) == (5, 4, 3)
+-- idempotent: a second pass over the remaining log removes nothing (first pass removed 4)
+#guard cleanCount (L6.drop 4) 1 2 0 900 true 1000 7 == 0
+#guard ((t6.clean 1 2 0 900 true 1000 7).clean 1 2 0 900 true 1000 7).oplog.map (·.id) == [4, 5]
 -- wrap-around: nowT = 100 < age 900 gives a cutoff near 2³², everything looks old
 #guard cutoffT 100 900 == 4294966496
 #guard cutoffT 1000 900 == 100
